@@ -1048,7 +1048,7 @@ def replay_worker(item):
     from scenic.core.vectors import Vector
 
     out = {"ci": ci, "viol": [], "runs": 0, "agree": 0, "known_like": 0, "model_rec_mismatch": [], "sample": None,
-           "diverged": 0, "fresh_runs": 0, "trunc": 0, "rounding": 0, "nano_runs": 0}
+           "diverged": 0, "fresh_runs": 0, "trunc": 0, "rounding": 0, "nano_runs": 0, "second_generation": 0}
     text, vals = replay_program(case["kind"], case["D"], case["stop"])
     if text not in _SIMS:
         _SIMS[text] = scenic.scenarioFromString(text, mode2D=False)
@@ -1144,6 +1144,27 @@ def replay_worker(item):
         rep["expected"] = {"acts": r["acts"], "term": r["term"], "fresh": r["fresh"]}
         if same(r) and (r["term"] == "DivergenceError" or drawn == list(fresh)):
             out["agree"] += 1
+            # second generation: a simulation that was itself a replay is a simulation like any other --
+            # encoded and replayed again (same length) it must reproduce itself without drawing anything new
+            if (case["cut"] < 0 and not case.get("sub", [0, 0])[0] and not r["shouldDiverge"]
+                    and obs["term"] not in ("DivergenceError", "SerializationError")):
+                obs3 = None
+                try:
+                    with watchdog(60), srng.Scripted(prefix=[], uniform_values=uv) as s3:
+                        data3 = sc.simulationToBytes(sim2)
+                        sim3 = sc.simulationFromBytes(data3, lattice_simulator(pert), maxSteps=case["T2"],
+                                                      divergenceTolerance=float(case["tol4"] * (Fraction(1, 10**9) if case["nano"] else Fraction(1, 4))),
+                                                      continueAfterDivergence=bool(case["cont"]))
+                        i3, t3, ok3 = observe(sim3)
+                        obs3 = {"acts": i3, "term": t3, "consistent": ok3, "fresh": [e[3] for e in s3.log]}
+                except _Timeout:
+                    obs3 = {"term": "timeout"}
+                except Exception as e:
+                    obs3 = {"term": f"{type(e).__name__}: {e}"[:160]}
+                out["second_generation"] = out.get("second_generation", 0) + 1
+                if not (obs3.get("acts") == obs["acts"] and obs3.get("term") == obs["term"] and obs3.get("consistent") and obs3.get("fresh") == []):
+                    rep2 = dict(rep, second_generation=obs3)
+                    out["viol"].append((f"replay of a re-encoded replay differs: first replay {obs}, second {obs3}", rep2, None))
             if r["term"] == "DivergenceError" or (r["shouldDiverge"] and case["cont"]):
                 out["diverged"] += 1
             if fresh:
@@ -1249,7 +1270,7 @@ def replay_part(ck, tier):
         runs[o["cid"] - 1].append(o)
     t1 = time.time()
     results = par_map(replay_worker, [(i, c, runs[i]) for i, c in enumerate(cases)])
-    tot = {k: 0 for k in ("runs", "agree", "diverged", "fresh_runs", "rounding", "nano_runs")}
+    tot = {k: 0 for k in ("runs", "agree", "diverged", "fresh_runs", "rounding", "nano_runs", "second_generation")}
     bad_model = []
     for r in results:
         for k in tot:
